@@ -231,6 +231,23 @@ structure PixOk (c : VesaFb.Cons) (f : VesaFb.Font) (fb : Array UInt8) : Prop wh
   size : fb.size = c.height * c.pitch
   pal : c.palette.size = 256
 
+/-- non-vacuity: a 24×35 16-bpp framebuffer with 1 byte of row padding, a 3-row logo and an 8×16
+font (2 rows of 3 cells) is in the domain -/
+example : PixOk { bpp := 16, bytesPerPixel := 2, width := 24, height := 35, pitch := 49, offsetY := 3,
+                  font := some { gw := 8, gh := 16, bpr := 1, data := #[] }, cols := 3, rows := 2,
+                  palette := Array.replicate 256 (0, 0, 0) }
+    { gw := 8, gh := 16, bpr := 1, data := #[] } (Array.replicate (35 * 49) 0) := by
+  constructor
+  case size => simp
+  case pal => simp
+  case bytes => decide
+  all_goals first | simp | decide
+
+/-- the shipped fonts (metadata regenerated from the compiled code) have non-empty glyphs, rows of
+`⌈gw/8⌉` bytes and 256 glyphs of data, and a blank space glyph -/
+example : ∀ p ∈ Gen.C19.fonts, 1 ≤ p.2.1 ∧ 1 ≤ p.2.2.1 ∧ 8 * (p.2.2.2.1 - 1) < p.2.1 ∧ p.2.1 ≤ 8 * p.2.2.2.1 ∧
+    p.2.2.2.2.1 = 256 * p.2.2.2.1 * p.2.2.1 ∧ p.2.2.2.2.2 = true := by decide
+
 private theorem getD_eq8 (fb : Array UInt8) (i : Nat) : view8 fb i = fb[i]?.getD 0 := by
   simp [view8, Array.getD_eq_getD_getElem?]
 
@@ -379,5 +396,185 @@ theorem pix_fill_clip (c : VesaFb.Cons) (f : VesaFb.Font) (fb : Array UInt8) (ok
       rw [e]; unfold mul32; omega
     rw [hm]
     exact aux
+
+
+private theorem add_sub32 {a b : Nat} (ha : a < 4294967296) (hb : b < 4294967296) : add32 (sub32 a b) b = a := by
+  unfold add32 sub32; omega
+
+/-- **scroll_exact (pixel)** — a line count in `1..rows` moves the visible bytes of every pixel
+row below the logo by exactly `lines` glyph heights; the logo rows, the padding bytes after each
+row, and the rows scrolled in keep their contents; any other count or direction changes
+nothing; never a panic. -/
+theorem pix_scroll_exact (c : VesaFb.Cons) (f : VesaFb.Font) (fb : Array UInt8) (ok : PixOk c f fb)
+    (dir lines : Nat) (hl : lines < 4294967296) :
+    ∃ fb', VesaFb.scroll c fb dir lines = some fb' ∧ fb'.size = fb.size ∧
+      ∀ i, i < fb.size → view8 fb' i = pixScroll c f (view8 fb) dir lines i := by
+  obtain ⟨g1, g2, g3, g4, g5, g6, g7, g8⟩ := geom ok
+  have hsize := ok.size
+  have hpitch := ok.pitch
+  unfold VesaFb.scroll
+  rw [ok.font]
+  simp only []
+  by_cases hg : lines = 0 ∨ lines > c.rows
+  · refine ⟨fb, by rw [if_pos hg], rfl, fun i _ => ?_⟩
+    have : ¬ (1 ≤ lines ∧ lines ≤ c.rows ∧ i % c.pitch < c.width * c.bytesPerPixel) := by omega
+    simp only [pixScroll, if_neg this]
+  · rw [if_neg hg]
+    have hv : 1 ≤ lines ∧ lines ≤ c.rows := by omega
+    -- d = lines * gh pixel rows
+    have hd1 : lines * f.gh ≤ c.rows * f.gh := Nat.mul_le_mul_right _ hv.2
+    have hd0 : 1 ≤ lines * f.gh := Nat.mul_pos hv.1 ok.gh1
+    have hm : mul32 lines f.gh = lines * f.gh := by unfold mul32; omega
+    have hrb : mul32 c.width c.bytesPerPixel = c.width * c.bytesPerPixel := by unfold mul32; omega
+    have hz : mul32 0 c.bytesPerPixel = 0 := by unfold mul32; omega
+    have hdp : lines * f.gh * c.pitch ≤ c.height * c.pitch := Nat.mul_le_mul_right _ (by omega)
+    have hdp1 : c.pitch ≤ lines * f.gh * c.pitch := Nat.le_mul_of_pos_left _ hd0
+    have hoffset : VesaFb.fbOffset c 0 (sub32 (mul32 lines f.gh) c.offsetY) = lines * f.gh * c.pitch := by
+      unfold VesaFb.fbOffset
+      rw [hm, add_sub32 (by omega) (by omega), hz]; unfold add32 mul32; omega
+    rw [hoffset, hrb]
+    by_cases hd0' : dir = 0
+    · rw [if_pos hd0']
+      have hstart : VesaFb.fbOffset c 0 0 = c.offsetY * c.pitch := by
+        have hle : c.offsetY * c.pitch ≤ c.height * c.pitch := Nat.mul_le_mul_right _ ok.logo
+        unfold VesaFb.fbOffset
+        rw [hz]; unfold add32 mul32
+        have : (0 + c.offsetY) % 4294967296 = c.offsetY := by omega
+        rw [this]; omega
+      have hend : VesaFb.fbOffset c 0 (sub32 (sub32 c.height (mul32 lines f.gh)) c.offsetY) = (c.height - lines * f.gh) * c.pitch := by
+        have hle : (c.height - lines * f.gh) * c.pitch ≤ c.height * c.pitch := Nat.mul_le_mul_right _ (by omega)
+        have hs : sub32 c.height (mul32 lines f.gh) = c.height - lines * f.gh := by rw [hm]; unfold sub32; omega
+        unfold VesaFb.fbOffset
+        rw [hs, add_sub32 (by omega) (by omega), hz]; unfold add32 mul32; omega
+      rw [hstart, hend, rows_count g7 (by omega)]
+      have hcond : (c.offsetY + (c.height - lines * f.gh - c.offsetY)) * c.pitch + lines * f.gh * c.pitch ≤ fb.size := by
+        rw [← Nat.add_mul, hsize]
+        exact Nat.mul_le_mul_right _ (by omega)
+      obtain ⟨fb', k1, k2, k3⟩ := scrollRowsUp_spec (lines * f.gh * c.pitch) (c.width * c.bytesPerPixel) c.pitch hpitch
+        (c.height - lines * f.gh - c.offsetY) fb c.offsetY hcond (by omega)
+      refine ⟨fb', k1, k2, fun i _ => ?_⟩
+      rw [getD_eq8, k3]
+      simp only [pixScroll, if_pos hd0']
+      by_cases hA : (c.offsetY ≤ i / c.pitch ∧ i / c.pitch < c.offsetY + (c.height - lines * f.gh - c.offsetY)) ∧
+          i % c.pitch < c.width * c.bytesPerPixel
+      · rw [if_pos hA, if_pos (by omega), if_pos (by omega), getD_eq8]
+      · rw [if_neg hA]
+        by_cases hB : 1 ≤ lines ∧ lines ≤ c.rows ∧ i % c.pitch < c.width * c.bytesPerPixel
+        · rw [if_pos hB, if_neg (by omega), getD_eq8]
+        · rw [if_neg hB, getD_eq8]
+    · rw [if_neg hd0']
+      by_cases hd1' : dir = 1
+      · rw [if_pos hd1']
+        have hstart : VesaFb.fbOffset c 0 (mul32 lines f.gh) = (c.offsetY + lines * f.gh) * c.pitch := by
+          have hle : (c.offsetY + lines * f.gh) * c.pitch ≤ c.height * c.pitch := Nat.mul_le_mul_right _ (by omega)
+          unfold VesaFb.fbOffset
+          rw [hm, hz]; unfold add32 mul32
+          have : (lines * f.gh + c.offsetY) % 4294967296 = c.offsetY + lines * f.gh := by omega
+          rw [this]; omega
+        have hsz32 : fb.size % 4294967296 = c.height * c.pitch := by omega
+        rw [hstart, if_neg (by omega), hsz32, rows_count g7 (by omega)]
+        have hRn : c.offsetY + lines * f.gh + (c.height - (c.offsetY + lines * f.gh)) = c.height := by omega
+        have hcond : (c.offsetY + lines * f.gh + (c.height - (c.offsetY + lines * f.gh))) * c.pitch ≤ fb.size := by
+          rw [hRn, hsize]; exact Nat.le_refl _
+        have hoffR : lines * f.gh * c.pitch ≤ (c.offsetY + lines * f.gh) * c.pitch := Nat.mul_le_mul_right _ (by omega)
+        obtain ⟨fb', k1, k2, k3⟩ := scrollRowsDown_spec (lines * f.gh * c.pitch) (c.width * c.bytesPerPixel) c.pitch hpitch hdp1 g7
+          (c.height - (c.offsetY + lines * f.gh)) fb (c.offsetY + lines * f.gh) hcond hoffR (by omega)
+        rw [hRn] at k1
+        refine ⟨fb', k1, k2, fun i _ => ?_⟩
+        rw [getD_eq8, k3]
+        simp only [pixScroll, if_neg hd0', if_pos hd1']
+        by_cases hA : (c.offsetY + lines * f.gh ≤ i / c.pitch ∧ i / c.pitch < c.offsetY + lines * f.gh + (c.height - (c.offsetY + lines * f.gh))) ∧
+            i % c.pitch < c.width * c.bytesPerPixel
+        · rw [if_pos hA, if_pos (by omega), if_pos (by omega), getD_eq8]
+        · rw [if_neg hA]
+          by_cases hB : 1 ≤ lines ∧ lines ≤ c.rows ∧ i % c.pitch < c.width * c.bytesPerPixel
+          · rw [if_pos hB, if_neg (by omega), getD_eq8]
+          · rw [if_neg hB, getD_eq8]
+      · rw [if_neg hd1']
+        refine ⟨fb, rfl, rfl, fun i _ => ?_⟩
+        simp only [pixScroll, if_neg hd0', if_neg hd1']
+        split <;> rfl
+
+
+/-- **write_frame (pixel), partial** — proved: with no font selected, or for any 32-bit
+coordinate outside the character grid, `Write` changes nothing and does not panic.
+NOT proved (covered by the correspondence run and the `write-frame` oracle only): for
+`1 ≤ x ≤ cols`, `1 ≤ y ≤ rows` the result equals `Spec.Console.pixWrite` — exactly the
+`gw × gh` pixels of the cell change, glyph bits to the packed foreground, the rest to the packed
+background — which needs the invariant of the running glyph mask / font offset of
+`write8/16/24` under `8(bpr-1) < gw ≤ 8·bpr`, `|data| = 256·bpr·gh`. -/
+theorem pix_write_frame_partial (c : VesaFb.Cons) (fb : Array UInt8) (ch fg bg x y : Nat)
+    (h : c.font = none ∨ x < 1 ∨ x > c.cols ∨ y < 1 ∨ y > c.rows) :
+    VesaFb.write c fb ch fg bg x y = some fb ∧
+    (∀ f, c.font = some f → ∀ i, pixWrite c f (view8 fb) ch fg bg x y i = view8 fb i) := by
+  constructor
+  · unfold VesaFb.write
+    cases hf : c.font with
+    | none => rfl
+    | some f =>
+      have : x < 1 ∨ x > c.cols ∨ y < 1 ∨ y > c.rows := by
+        rcases h with h | h
+        · rw [hf] at h; cases h
+        · exact h
+      simp only [if_pos this]
+  · intro f hf i
+    have : ¬ (1 ≤ x ∧ x ≤ c.cols ∧ 1 ≤ y ∧ y ≤ c.rows) := by
+      rcases h with h | h
+      · rw [hf] at h; cases h
+      · omega
+    simp only [pixWrite, if_neg this]
+
+/-- **no_oob (text)** — no text-console operation ever indexes outside the framebuffer, for any
+32-bit arguments. -/
+theorem text_no_oob (c : VgaText.Cons) (fb : Array UInt16) (ok : TextOk c fb)
+    (a b x y w h dir : Nat) (hx : x < 4294967296) (hy : y < 4294967296) (hw : w < 4294967296) (hh : h < 4294967296) :
+    VgaText.write c fb a b dir x y ≠ none ∧ VgaText.fill c fb x y w h a b ≠ none ∧ VgaText.scroll c fb dir w ≠ none := by
+  obtain ⟨_, h1, _⟩ := text_write_frame c fb ok a b dir x y hx hy
+  obtain ⟨_, h2, _⟩ := text_fill_clip c fb ok x y w h a b hx hy hw hh
+  obtain ⟨_, h3, _⟩ := text_scroll_exact c fb ok dir w hw
+  rw [h1, h2, h3]; simp
+
+/-- **no_oob (pixel), partial** — `Fill` and `Scroll` never index outside the framebuffer, for
+any 32-bit arguments; `Write` is covered for coordinates outside the grid by
+`pix_write_frame_partial` (in-grid `Write`: correspondence run only). -/
+theorem pix_no_oob_partial (c : VesaFb.Cons) (f : VesaFb.Font) (fb : Array UInt8) (ok : PixOk c f fb)
+    (x y w h fg bg dir : Nat) (hx : x < 4294967296) (hy : y < 4294967296) (hw : w < 4294967296) (hh : h < 4294967296)
+    (hbg : bg < 256) :
+    VesaFb.fill c fb x y w h fg bg ≠ none ∧ VesaFb.scroll c fb dir w ≠ none := by
+  obtain ⟨_, h2, _⟩ := pix_fill_clip c f fb ok x y w h fg bg hx hy hw hh hbg
+  obtain ⟨_, h3, _⟩ := pix_scroll_exact c f fb ok dir w hw
+  rw [h2, h3]; simp
+
+/-- **padding_untouched (pixel), partial** — after `Fill` and `Scroll` (any 32-bit arguments)
+every padding byte (offset within its row ≥ `width*bytesPerPixel`) and every byte of the logo
+rows (row < `offsetY`) holds its old value.  (`Write`: see `pix_write_frame_partial`.) -/
+theorem padding_untouched_partial (c : VesaFb.Cons) (f : VesaFb.Font) (fb : Array UInt8) (ok : PixOk c f fb)
+    (x y w h bg dir lines i : Nat)
+    (hi : c.width * c.bytesPerPixel ≤ i % c.pitch ∨ i / c.pitch < c.offsetY) :
+    pixFill c f (view8 fb) x y w h bg i = view8 fb i ∧ pixScroll c f (view8 fb) dir lines i = view8 fb i := by
+  obtain ⟨g1, g2, g3, g4, g5, g6, g7, g8⟩ := geom ok
+  constructor
+  · simp only [pixFill, paint, fillRect]
+    have hx1 : min (clamp x c.cols - 1 + w) c.cols * f.gw ≤ c.cols * f.gw := Nat.mul_le_mul_right _ (by omega)
+    have hnot : ¬ (c.offsetY + (clamp y c.rows - 1) * f.gh ≤ i / c.pitch ∧
+        i / c.pitch < c.offsetY + min (clamp y c.rows - 1 + h) c.rows * f.gh ∧
+        (clamp x c.cols - 1) * f.gw ≤ i % c.pitch / c.bytesPerPixel ∧
+        i % c.pitch / c.bytesPerPixel < min (clamp x c.cols - 1 + w) c.cols * f.gw) := by
+      intro ⟨a1, a2, a3, a4⟩
+      rcases hi with hi | hi
+      · have : c.width ≤ i % c.pitch / c.bytesPerPixel := (Nat.le_div_iff_mul_le g3).2 hi
+        omega
+      · omega
+    rw [if_neg hnot]
+  · simp only [pixScroll]
+    rcases hi with hi | hi
+    · rw [if_neg (by omega)]
+    · split
+      · split
+        · rw [if_neg (by omega)]
+        · split
+          · rw [if_neg (by omega)]
+          · rfl
+      · rfl
 
 end Firefly.C19
